@@ -158,7 +158,7 @@ M("c20-gain-clamp-removed", ["C20"], ("modules/multictl.py", "    value = min(va
 M("c20-dup-module-check-removed", ["C20"], ("modules/multictl.py", "        if len(mods) != len(set(mods)):", "        if False:"))
 
 # ---------------------------------------------------------------- reverts of later fixes
-M("revert-F14-multictl-mapping-beyond-controllers", ["C06"], ("modules/multictl.py", "            if mapping.controller > len(controllers):  # names a controller the target lacks\n                continue\n", ""))
+M("revert-F14-multictl-mapping-beyond-controllers", ["C20", "C06"], ("modules/multictl.py", "            if mapping.controller > len(controllers):  # names a controller the target lacks\n                continue\n", ""))
 M("revert-F15-slot-conflicts-on-load", ["C05"], ("readers/sunvox.py", "                if out_link_idx == -1 or (\n                    out_links[out_link_idx] != -1\n                    and (out_links[out_link_idx], out_link_slots[out_link_idx])\n                    != (mod.index, in_link_idx)\n                ):", "                if False:"))
 M("revert-F19-macro-forwards-name-none", ["C01", "C20"], ("modules/multictl.py", "        if name is not None:\n            kwargs[\"name\"] = name\n", "        kwargs[\"name\"] = name\n"))
 M("revert-F16-duplicate-links-share-a-slot", ["C05"], ("readers/sunvox.py", "                    and (out_links[out_link_idx], out_link_slots[out_link_idx])\n                    != (mod.index, in_link_idx)\n", "                    and out_links[out_link_idx] != mod.index\n"))
